@@ -7,7 +7,7 @@ EXPLANATION = (
     "A-DOM / A-WHO over crate stylua and stylua_lib::format_ast: (R-FS) the single fs::write happens only after "
     "format_code returned Ok, only if the text differs, with the formatted text, to the path that was read; "
     "(R-WORKERS) every worker closure sends exactly one Result on every normal path and the output loop only ends "
-    "when the channel is closed; (R-LOOPEXIT) inside the directory-walk loop only configuration / ignore-file errors can abort the run - no per-file operation is followed by `?`; (R-ERRSTATUS) every Err handled by the output thread raises the status to 2; (R-EXIT) worker panics map to status 2; (R-VERIFY) format_ast returns Err on both "
+    "when the channel is closed; (R-LOOPEXIT) inside the directory-walk loop only configuration / ignore-file errors can abort the run - no per-file operation is followed by `?`; (R-ERRSTATUS) every Err handled by the output thread raises the status to 2; (R-EXIT) worker panics map to status 2; (R-PANICMODE) no Cargo profile / rustflags of the workspace selects panic = \"abort\" (a panicking worker must unwind for that); (R-VERIFY) format_ast returns Err on both "
     "verification failures before Ok(ast), and with OutputVerification::Full every path to Ok(ast) passes the reparse of the printed formatted tree and AstVerifier::compare(input clone, reparse) == true. Not decided: atomicity of fs::write itself, read-only files.")
 ASSUMPTIONS = ["std::fs::write either fails or replaces the file (its own atomicity is outside the stated fault model)",
                "threadpool counts panicking jobs in panic_count()",
@@ -97,4 +97,4 @@ def rule_verify(ctx, prop):
 
 def run(ctx):
     return [r_cli.rule_fs(ctx, "C14"), r_cli.rule_workers(ctx, "C14"), r_cli.rule_exit(ctx, "C14"), r_cli.rule_err_status(ctx, "C14"), r_cli.rule_loop_exit(ctx, "C14"),
-            rule_verify(ctx, "C14"), r_cli.rule_verify_wiring(ctx, "C14")]
+            rule_verify(ctx, "C14"), r_cli.rule_verify_wiring(ctx, "C14"), r_cli.rule_panic_mode(ctx, "C14")]
